@@ -103,6 +103,15 @@ CLAIMED = {
          "(topology XML, mapping, options, multi-frame .gro with varying boxes, IMC targets, blocks, selections, threads) and comparing all written files.",
          "Lean kernel + three standard axioms; harness/c04.py (decimal->double, math.cos of angular boundaries); IEEE rounding not modelled (near-boundary runs skipped, tolerance 5e-8); mean-force tables and --begin not covered.",
          "6/C04"),
+ "C07": ("Lean 4 proof over the reals (Mathlib calculus: HasDerivAt of sqrt / arccos / exp compositions, field identities by field_simp+ring) about gradient "
+         "formulas written once for any field and about potential-function formulas regenerated from the source on every run + correspondence with the real "
+         "classes and numerical differentiation",
+         "For every non-singular geometry: Grad·e is the derivative of the bond length, of the angle (beads 0, 2) and of the dihedral (beads 0, 3) along every "
+         "displacement e; gradients of one interaction sum to zero; LJ126 / LJG: CalculateDF(i) and CalculateD2F(i,j) of the translated source are the partial "
+         "derivatives, D2F symmetric; B-spline potential linear in its coefficients with partition of unity; spline derivative theorems of C12. Tied to the "
+         "working tree by the translator and by evaluating the real IBond/IAngle/IDihedral/PotentialFunction classes on generated inputs.",
+         "Lean kernel + three standard axioms; translator tr_c07.py (cexpr); witnesses for sqrt/exp (20-digit rational sqrt, libm exp); PARTIAL: middle-bead derivatives via sum-to-zero + numeric check; singular geometries excluded.",
+         "6/C07"),
 }
 REASONS = {}
 
